@@ -27,7 +27,7 @@ package datasource
 // last one is a no-op; otherwise the updater runs exactly once on the converted value; no panic escapes
 //@ func (h *DefaultPropertyHandler) Handle(src) err
 //@   props C18
-//@   requires h != nil
+//@   requires h != nil && h.converter != nil && h.updater != nil
 //@   requires gConvDone <= gConvN
 //@   panics never
 //@   let u0 = gUpdN
